@@ -87,7 +87,7 @@ func c05Lists(maxLen int, longLens []int) *core.Scenario {
 	alpha := c05Alphabet()
 	return &core.Scenario{
 		Name: "data_lists", Bound: -1,
-		Rule: "DB/DW/DD x every operand list of length 1..maxLen over the 27-item alphabet, plus rotations of the alphabet at the long lengths; non-trivial = assembled without diagnostic and emitted >=1 byte; distinct = distinct emitted byte strings",
+		Rule:   "DB/DW/DD x every operand list of length 1..maxLen over the 27-item alphabet, plus rotations of the alphabet at the long lengths; non-trivial = assembled without diagnostic and emitted >=1 byte; distinct = distinct emitted byte strings",
 		Bounds: map[string]any{"directives": []string{"DB", "DW", "DD"}, "alphabet": len(alpha), "max_len": maxLen, "long_lens": longLens, "origins": []string{"none", "0x7c00", "0x280000"}},
 		Build: func(c *core.Chooser) *core.Case {
 			dir := c.Str("dir", "DB", "DW", "DD")
@@ -206,9 +206,9 @@ func c05Resb(thorough bool) *core.Scenario {
 			}
 			src := org + sentinelLine(0) + pre + stmt + sentinelLine(1)
 			return &core.Case{
-				Key:  strings.TrimSpace(org) + "|" + strings.TrimSpace(pre) + "|" + strings.TrimSpace(stmt),
-				Feat: feat("dir", "RESB", "form", form, "org", fmt.Sprint(origin)),
-				Srcs: []string{src},
+				Key:   strings.TrimSpace(org) + "|" + strings.TrimSpace(pre) + "|" + strings.TrimSpace(stmt),
+				Feat:  feat("dir", "RESB", "form", form, "org", fmt.Sprint(origin)),
+				Srcs:  []string{src},
 				Judge: func(rs []*core.Result) core.Verdict { return c05JudgeRegion(rs[0], want, origin, true) },
 			}
 		},
@@ -242,9 +242,9 @@ func c05Alignb() *core.Scenario {
 			want := make([]byte, int64(r)+pad)
 			src := org + sentinelLine(0) + pre + fmt.Sprintf("\tALIGNB %d\n", n) + sentinelLine(1)
 			return &core.Case{
-				Key:  fmt.Sprintf("ORG 0x%x|RESB %d|ALIGNB %d", origin, r, n),
-				Feat: feat("dir", "ALIGNB", "org", fmt.Sprintf("0x%x", origin), "org_mod_n", fmt.Sprint(origin%int64(n) != 0), "n", fmt.Sprint(n)),
-				Srcs: []string{src},
+				Key:   fmt.Sprintf("ORG 0x%x|RESB %d|ALIGNB %d", origin, r, n),
+				Feat:  feat("dir", "ALIGNB", "org", fmt.Sprintf("0x%x", origin), "org_mod_n", fmt.Sprint(origin%int64(n) != 0), "n", fmt.Sprint(n)),
+				Srcs:  []string{src},
 				Judge: func(rs []*core.Result) core.Verdict { return c05JudgeRegion(rs[0], want, origin, true) },
 			}
 		},
@@ -295,14 +295,99 @@ func c05NonEmitting() *core.Scenario {
 	}
 }
 
+// c05Sequences: every ordered triple of directive statements in one program (what one directive leaves behind
+// - a shared buffer, a moved location counter, a section switch - must not change what the next one emits).
+func c05Sequences(depth int) *core.Scenario {
+	type seqStmt struct {
+		text func(origin int64) string
+		emit func(addr, origin int64) []byte
+	}
+	fixed := func(t string, b ...byte) seqStmt {
+		return seqStmt{func(int64) string { return t }, func(int64, int64) []byte { return b }}
+	}
+	zeros := func(n int64) []byte { return make([]byte, n) }
+	align := func(n int64) seqStmt {
+		return seqStmt{func(int64) string { return fmt.Sprintf("ALIGNB %d", n) }, func(addr, _ int64) []byte { return zeros((n - addr%n) % n) }}
+	}
+	alpha := []seqStmt{
+		fixed("RESB 4", 0, 0, 0, 0), fixed("RESB 16", zeros(16)...), fixed("RESB 1", 0),
+		{func(o int64) string { return fmt.Sprintf("RESB 0x%x-$", o+0x80) }, func(addr, o int64) []byte {
+			if o+0x80 < addr {
+				return nil // negative size: not a program of the space (pruned below)
+			}
+			return zeros(o + 0x80 - addr)
+		}},
+		fixed(`DB "GOSK",0x11,0x22`, 'G', 'O', 'S', 'K', 0x11, 0x22), fixed("DW 0x1234", 0x34, 0x12), fixed("DD 0x89abcdef", 0xef, 0xcd, 0xab, 0x89), fixed("DB 0xff", 0xff),
+		{func(int64) string { return "DW $" }, func(addr, _ int64) []byte { return le(addr, 2) }},
+		{func(int64) string { return "DD back" }, func(_, o int64) []byte { return le(o, 4) }},
+		align(8), align(16),
+		fixed("[SECTION .data]"), fixed("[SECTION .text]"), fixed("[BITS 32]"),
+	}
+	var names []string
+	for _, a := range alpha {
+		names = append(names, a.text(0))
+	}
+	return &core.Scenario{
+		Name: "directive_sequences", Bound: -1,
+		Rule:   fmt.Sprintf("every ordered %d-tuple of %d directive statements (RESB incl. addr-$, DB/DW/DD incl. $ and a label, ALIGNB, section/BITS directives) in one program x ORG {none, 0x7c00}: the bytes between the sentinels must be the concatenation of what the directive model gives for each statement at its address", depth, len(alpha)),
+		Bounds: map[string]any{"statements": names, "depth": depth, "origins": []string{"none", "0x7c00"}},
+		Build: func(c *core.Chooser) *core.Case {
+			origin := []int64{0, 0x7c00}[c.Pick("org", 2)]
+			org := ""
+			if origin != 0 {
+				org = fmt.Sprintf("\tORG 0x%x\n", origin)
+			}
+			framed := c.Bool("framed") // unframed: the statements are the whole program (the first one is the first to emit)
+			addr := origin + 8
+			if !framed {
+				addr = origin
+			}
+			var want []byte
+			var body, key []string
+			for d := 0; d < depth; d++ {
+				a := alpha[c.Pick(fmt.Sprintf("s%d", d), len(alpha))]
+				t := a.text(origin)
+				b := a.emit(addr, origin)
+				if b == nil && strings.Contains(t, "-$") {
+					return nil
+				}
+				want = append(want, b...)
+				addr += int64(len(b))
+				body = append(body, "\t"+t+"\n")
+				key = append(key, t)
+			}
+			src := org + "back:\n" + sentinelLine(0) + strings.Join(body, "") + sentinelLine(1)
+			if !framed {
+				src = org + "back:\n" + strings.Join(body, "")
+				want = append(append(sentinelBytes(0), want...), sentinelBytes(1)...)
+				src += sentinelLine(1) // closing sentinel only; the opening one is prepended to the output before judging
+			}
+			return &core.Case{
+				Key:  strings.TrimSpace(org) + "|" + strings.Join(key, " ; ") + map[bool]string{true: "", false: " (first in file)"}[framed],
+				Feat: feat("dir", "seq", "s0", key[0], "s1", key[1], "org", fmt.Sprint(origin), "framed", fmt.Sprint(framed)),
+				Srcs: []string{src},
+				Judge: func(rs []*core.Result) core.Verdict {
+					if framed {
+						return c05JudgeRegion(rs[0], want, origin, true)
+					}
+					r := *rs[0]
+					r.Out = append(sentinelBytes(0), r.Out...)
+					r.LOC += 8
+					return c05JudgeRegion(&r, want[8:len(want)-8], origin, true)
+				},
+			}
+		},
+	}
+}
+
 func init() {
 	register(&Property{
 		ID: "C05",
 		Scenarios: func(tier string) []*core.Scenario {
 			if tier == "thorough" {
-				return []*core.Scenario{c05Lists(3, []int{4, 8, 16, 32, 64}), c05Resb(true), c05Alignb(), c05NonEmitting()}
+				return []*core.Scenario{c05Lists(3, []int{4, 8, 16, 32, 64}), c05Resb(true), c05Alignb(), c05NonEmitting(), c05Sequences(3)}
 			}
-			return []*core.Scenario{c05Lists(2, []int{4, 64}), c05Resb(false), c05Alignb(), c05NonEmitting()}
+			return []*core.Scenario{c05Lists(2, []int{4, 64}), c05Resb(false), c05Alignb(), c05NonEmitting(), c05Sequences(3)}
 		},
 		Assumptions: []string{
 			"sentinel DB lines of eight small hexadecimal literals assemble to exactly those bytes (they are themselves members of the explored DB space)",
